@@ -496,6 +496,9 @@ func (c *c16) checkW1(cs *Case, ex *c16extra, record bool) *Case {
 		v.Decisions = dec
 		return v
 	}
+	if n := simrt.HeldLocks(); n != 0 {
+		return fail("lock-leaked", "parse", fmt.Sprintf("%d lock acquisition(s) were never released although every parse has returned", n))
+	}
 	if ex.Cold {
 		for i, p := range ps {
 			solo[i] = soloResult(p, cs.Opts)
@@ -1009,6 +1012,9 @@ func (c *c16) checkW3(cs *Case, ex *c16extra, record bool) *Case {
 		if pv != nil {
 			return fail("crash-under-concurrency", ex.Collection+":"+normPanicMsg(fmt.Sprint(pv)), fmt.Sprintf("client %d panicked: %v", i, pv))
 		}
+	}
+	if n := simrt.HeldLocks(); n != 0 {
+		return fail("lock-leaked", ex.Collection, fmt.Sprintf("%d lock acquisition(s) of %s were never released although every client has returned (a failing callback?)", n, ex.Collection))
 	}
 	var hist []porcupine.Operation
 	nops, overlap := 0, false
